@@ -438,6 +438,15 @@ func (x *Exec) evalSpecCall(st *State, e *ast.CallExpr) *Value {
 		v := x.eval(st, e.Args[0])
 		t := x.astType(e.Args[1])
 		return x.unbox(st, v, t)
+	case "haskey":
+		m := x.eval(st, e.Args[0])
+		u, ok := m.T.Underlying().(*types.Map)
+		if !ok {
+			x.fail("spec: haskey on %v", m.T)
+			return x.constInt(0)
+		}
+		k := x.coerce(st, x.eval(st, e.Args[1]), u.Key())
+		return scalarV(boolT, x.mapHas(st, m, u, k))
 	case "emptymap":
 		v := x.eval(st, e.Args[0])
 		return scalarV(boolT, x.mapIsEmpty(st, v.scalar()))
